@@ -11,6 +11,7 @@ import (
 	"fmt"
 	"io"
 	"runtime/metrics"
+	"strings"
 	"testing"
 	"time"
 
@@ -152,7 +153,23 @@ func (s snoopSrc) read(zc bool) ([]byte, gopacket.CaptureInfo, error) {
 func (s snoopSrc) snap() uint64 { return 4096 }
 
 // consume runs one reader over a stream and applies the per-call oracles.
-func consume(c *Case, rd io.Reader, present int) (res result, f *vh.Failure) {
+// consume runs the reader over a fresh stream. Allocation is measured with the runtime's cumulative heap counter,
+// which other goroutines also feed and which the runtime updates lazily, so a single reading can overstate what one
+// call allocated: an allocation finding only counts when it shows in three consecutive, otherwise identical passes.
+func consume(c *Case, mk func() io.Reader, present int) (res result, f *vh.Failure) {
+	for attempt := 0; attempt < 3; attempt++ {
+		res, f = consumeOnce(c, mk(), present)
+		if f == nil || !strings.Contains(f.Key, ":alloc") {
+			return res, f
+		}
+		if attempt < 2 {
+			S.Class("alloc-reading-rechecked", 1)
+		}
+	}
+	return res, f
+}
+
+func consumeOnce(c *Case, rd io.Reader, present int) (res result, f *vh.Failure) {
 	var src source
 	a0 := allocated()
 	var err error
@@ -270,14 +287,14 @@ func runCase1(c *Case) (*vh.Failure, info) {
 	if len(c.Data) > 2 && c.Data[0] == 0x1f && c.Data[1] == 0x8b {
 		present = max(present, inflatedLen(c.Data)) // see genCase: damaged deflate data may inflate beyond the original
 	}
-	whole, f := consume(c, bytes.NewReader(c.Data), present)
+	whole, f := consume(c, func() io.Reader { return bytes.NewReader(c.Data) }, present)
 	if f != nil {
 		return f, in
 	}
 	in.pkts = len(whole.pkts)
 	in.progress = len(whole.pkts) > 0
 	// chunking invariance
-	chunked, f := consume(c, &chunkReader{data: c.Data, pattern: c.Chunks, faultAt: -1}, present)
+	chunked, f := consume(c, func() io.Reader { return &chunkReader{data: c.Data, pattern: c.Chunks, faultAt: -1} }, present)
 	if f != nil {
 		f.Msg = "chunked delivery: " + f.Msg
 		return f, in
@@ -287,7 +304,7 @@ func runCase1(c *Case) (*vh.Failure, info) {
 	}
 	// injected I/O error
 	if c.FaultAt >= 0 && c.FaultAt < len(c.Data) {
-		faulty, f := consume(c, &chunkReader{data: c.Data, pattern: c.Chunks, faultAt: c.FaultAt}, present)
+		faulty, f := consume(c, func() io.Reader { return &chunkReader{data: c.Data, pattern: c.Chunks, faultAt: c.FaultAt} }, present)
 		if f != nil {
 			f.Msg = fmt.Sprintf("with an I/O error injected at offset %d: %s", c.FaultAt, f.Msg)
 			return f, in
